@@ -31,7 +31,7 @@ impl OutgoingConnectionFlowControllerImpl {
 //@|     ocfc_acquire_post(old(self).abs(), desired.0 as int, final(self).abs(), ret.0 as int),
 //@|     ocfc_inv(final(self).abs()),
 
-//@ splice-fn quic/s2n-quic-transport/src/stream/outgoing_connection_flow_controller.rs "OutgoingConnectionFlowControllerImpl" on_max_data vis=strip "subst=frame.maximum_data - self.total_available_window=>frame.maximum_data.sub(self.total_available_window);;self.available_window += increment;=>self.available_window.add_assign(increment);"
+//@ splice-fn quic/s2n-quic-transport/src/stream/outgoing_connection_flow_controller.rs "OutgoingConnectionFlowControllerImpl" on_max_data vis=strip "subst=frame.maximum_data - self.total_available_window=>frame.maximum_data.sub(self.total_available_window)@@self.available_window += increment;=>self.available_window.add_assign(increment);"
 //@| requires ocfc_inv(old(self).abs()), frame.maximum_data.wf(),
 //@| ensures
 //@|     ocfc_max_data_post(old(self).abs(), frame.maximum_data.0 as int, final(self).abs()),
